@@ -3,6 +3,7 @@ import os, sys, json, time, fnmatch, hashlib, shutil, tempfile, atexit
 
 VERIF = os.path.dirname(os.path.dirname(os.path.abspath(__file__)))
 REPO = os.environ.get("SLU_REPO", "/repo")
+OUT = os.environ.get("VERIF_OUT", VERIF)   # evidence/ and replays/ go here (seed evaluation redirects it; registered commands use /verif)
 
 
 def load_known():
@@ -35,7 +36,7 @@ class Check:
             if all(fnmatch.fnmatch(str(key.get(f, "")), str(v)) for f, v in mt.items()):
                 if not any(h["finding"] is k for h in self.known_hits): self.known_hits.append({"finding": k, "key": key})
                 return False
-        d = os.path.join(VERIF, "replays", self.pid); os.makedirs(d, exist_ok=True)
+        d = os.path.join(OUT, "replays", self.pid); os.makedirs(d, exist_ok=True)
         h = hashlib.md5(json.dumps(key, sort_keys=True).encode()).hexdigest()[:12]
         path = os.path.join(d, h + ".json")
         json.dump({"property": self.pid, "key": key, "what": what, "replay": replay_obj}, open(path, "w"), indent=1)
@@ -62,8 +63,8 @@ class Check:
         if coverage_extra: cov.update(coverage_extra)
         ev = {"property_id": self.pid, "tier": self.tier, "seed": self.seed, "level": self.level, "coverage": cov,
               "assumptions": self.assumptions, "wall_s": round(wall, 2), "violations": len(self.violations)}
-        os.makedirs(os.path.join(VERIF, "evidence"), exist_ok=True)
-        json.dump(ev, open(os.path.join(VERIF, "evidence", self.pid + ".json"), "w"), indent=1)
+        os.makedirs(os.path.join(OUT, "evidence"), exist_ok=True)
+        json.dump(ev, open(os.path.join(OUT, "evidence", self.pid + ".json"), "w"), indent=1)
         for h in self.known_hits:
             print("KNOWN-FINDING: property=%s %s" % (self.pid, h["finding"].get("what")))
         for v in self.violations[:20]:
